@@ -388,7 +388,10 @@ def register(R, tier="quick"):
             loops = {0: LoopSpec(inv=["minv(self)", "pos(self) >= old(pos(self))",
                                       "forall(lambda s: implies(mem(self, s) and s >= old(pos(self)) and s < pos(self), "
                                       "score_at(self, s) <= minquality))"])} if cls != "AndNotMatcher" else {}
-        C(key + "skip_to_quality", props=PROPS_Q, setup=mk_args(cls, {"minquality": "real"}, **extra),
+        # (AndNot: that a quality skip never leaves the matcher on an excluded document is also what C01 / C11 state for
+        # limited searches; the other combinators' skip obligations carry recorded findings under C05 / C09 / C12 only)
+        C(key + "skip_to_quality", props=PROPS_Q + (["C01", "C11"] if cls == "AndNotMatcher" else []),
+          setup=mk_args(cls, {"minquality": "real"}, **extra),
           requires=SKQ_REQ + ["minquality >= 0"], ensures=post, modifies=["self.a", "self.b"], returns="int", loops=loops,
           note="skip_to_quality(q) never passes over an entry scoring more than q")
     C(BIN + ":BiMatcher.copy", props=["C11"], setup=mk("IntersectionMatcher"), requires=["minv(self)"],
